@@ -145,8 +145,17 @@ def signed_event(rng, keys, mutate=None):
     if mutate == "upper-pubkey":
         ev.pubkey = ev.pubkey.upper()
         ev.id = Event.compute_id(ev.pubkey, ev.created_at, ev.kind, ev.tags, ev.content)
+    elif mutate == "spaced-pubkey":
+        # `bytes.fromhex` skips ASCII whitespace: the same key, written in words; id and signature made over this text
+        ev.pubkey = rng.choice([" ", "\t", "\n"]).join(ev.pubkey[i:i + 8] for i in range(0, 64, 8))
+        ev.id = Event.compute_id(ev.pubkey, ev.created_at, ev.kind, ev.tags, ev.content)
     ev.sign(sk.hex())
-    return ev.to_json_object()
+    out = ev.to_json_object()
+    if mutate == "spaced-sig":
+        out["sig"] = out["sig"][:64] + rng.choice([" ", "  ", "\n"]) + out["sig"][64:]
+    elif mutate == "ws-sig":
+        out["sig"] = out["sig"] + rng.choice([" ", "\n", "\r\n", "\t"])
+    return out
 
 
 def norm(x):
@@ -168,12 +177,14 @@ def classify_store(ev):
 
 
 def store_case(report, rng, store, keys, app_client):
-    mutate = "upper-pubkey" if rng.random() < 0.06 else None
+    mutate = rng.choice(["upper-pubkey", "spaced-pubkey", "spaced-sig", "ws-sig"]) if rng.random() < 0.12 else None
     ev = signed_event(rng, keys, mutate)
     accepted = copy.deepcopy(ev)
     payload = {"kind": "store", "backend": store.backend, "event": accepted}
     store.captured = []
     res = store.add(ev)
+    if mutate:
+        report.count("noncanonical_hex_%s_%s" % (mutate, "accepted" if res["ok"] else "refused"))
     if not res["ok"]:
         report.count("refused_" + store.backend)
         return
@@ -247,7 +258,9 @@ def run(report, tier, seed):
         "(quote, backslash, \\n \\r \\t \\b \\f, other C0 controls, DEL, U+2028/9, BOM, U+FFFF, non-BMP, literal '\\u0041') "
         "and non-string tag items (ints, floats, booleans, null, nested arrays/objects); stores: really signed events "
         "with the same content/tag classes through add_event, get_event, query by id, live push and HTTP /e/<id> on "
-        "both backends; non-trivial = the frame needs an escape or carries a non-string item")
+        "both backends, about one in eight of them with non-canonical hex (upper-case pubkey, pubkey written in words separated "
+        "by blanks / tabs / newlines, blanks inside or after the sig — all of which bytes.fromhex decodes); "
+        "non-trivial = the frame needs an escape or carries a non-string item")
     report.assumptions += ["the codecs (rapidjson, msgpack, SQLite JSON column) are exercised, not modelled",
                            "OK / NOTICE / AUTH frames are produced by rapidjson's encoder and are checked in C13/C19"]
     from aionostr.key import PrivateKey
